@@ -47,6 +47,7 @@ type profile struct {
 	pFault     float64 // faults "one": probability of a fault per run (default 0.5)
 	budget     int     // runs in the quick tier (default 780; thorough = 8 times as many)
 	pLate      float64 // per wait group: late status deliveries while the group completes and the consumer is slow (default 0.06)
+	pMut       float64 // share of universe entries whose references are spelled as apply-time mutations (default 0.3)
 }
 
 var profiles = map[string]profile{
@@ -61,7 +62,7 @@ var profiles = map[string]profile{
 	"C05": {name: "C05", runsMin: 1, runsMax: 2, pDestroy: 0.5, pNoPrune: 0.0, dry: []Dry{DNone, DNone, DNone, DNone, DClient},
 		pSSA: 0.1, pInvalid: 0.05, pBadGraph: 0.05, pLiveBad: 0.12, pDeps: 0.5, varied: true, pTimeouts: 0.5, faults: "one", pCRD: 0.25, pKeep: 0.25, pStall: 0.4, pEmpty: 0.1},
 	"C10": {name: "C10", runsMin: 1, runsMax: 3, pDestroy: 0.3, pNoPrune: 0.15, dry: []Dry{DNone, DClient, DClient, DServer, DServer},
-		pSSA: 0.5, pInvalid: 0.1, pBadGraph: 0.05, pLiveBad: 0.05, pDeps: 0.2, varied: false, pTimeouts: 0.1, faults: "none"},
+		pSSA: 0.5, pInvalid: 0.1, pBadGraph: 0.05, pLiveBad: 0.05, pDeps: 0.35, varied: false, pTimeouts: 0.1, faults: "one", pFault: 0.25, pMut: 0.5},
 	"C11": {name: "C11", runsMin: 1, runsMax: 2, pDestroy: 0.35, pNoPrune: 0.15, dry: []Dry{DNone, DNone, DNone, DClient},
 		pSSA: 0.15, pInvalid: 0.7, pBadGraph: 0.45, pLiveBad: 0.4, pDeps: 0.35, varied: false, pTimeouts: 0.1, faults: "none", pCRD: 0.15},
 	"C12": {name: "C12", runsMin: 1, runsMax: 2, pDestroy: 0.3, pNoPrune: 0.1, dry: []Dry{DNone},
@@ -153,10 +154,15 @@ func quietKlog() {
 
 // ---- universe / cluster ---------------------------------------------------------------------
 
-// mutChance: share of universe entries whose dependency references are spelled as apply-time mutations
-var mutChance = 0.3
+// mutProb: share of universe entries whose dependency references are spelled as apply-time mutations
+func (p profile) mutProb() float64 {
+	if p.pMut > 0 {
+		return p.pMut
+	}
+	return 0.3
+}
 
-func genUniverse(r *rand.Rand, p profile, mutOK bool) Universe {
+func genUniverse(r *rand.Rand, p profile) Universe {
 	var es []UEntry
 	add := func(prob float64, e UEntry) {
 		if chance(r, prob) {
@@ -215,9 +221,9 @@ func genUniverse(r *rand.Rand, p profile, mutOK bool) Universe {
 		if (es[i].Kind == KPlain || es[i].Kind == KApiSvc) && !es[i].FInv && chance(r, 0.25) {
 			es[i].Fin = true
 		}
-		// dependency references spelled as apply-time-mutation substitutions; only in histories
-		// without dry-run (there the source does not exist and the mutator fails)
-		if mutOK && !es[i].FInv && chance(r, mutChance) {
+		// dependency references spelled as apply-time-mutation substitutions (dry-run histories too: the
+		// source lookup of the mutator — resource cache, else a GET — is in the model)
+		if !es[i].FInv && chance(r, p.mutProb()) {
 			es[i].Mut = true
 		}
 		// the manifests of this id arrive with an owning-inventory annotation on them
@@ -448,6 +454,38 @@ func genLocals(r *rand.Rand, p profile, u Universe, cur Cluster) []LObj {
 			l.Deps = d
 		} else if len(l.Deps) > 0 && chance(r, p.pBadGraph/2) {
 			l.Deps = append(l.Deps, l.Deps[0]) // duplicate
+		}
+	}
+	// a three-layer chain under a mutation-spelled object (a; b on a; c, mutation-spelled, on b and a): the one shape
+	// in which the source a can be reported again (while b is waited for) before the mutator of c looks it up
+	if chance(r, 0.12) {
+		var cs, others []int
+		for k, l := range ls {
+			if l.FInv || !u[l.ID].Referable() {
+				continue
+			}
+			if u[l.ID].Mut {
+				cs = append(cs, k)
+			}
+			others = append(others, k)
+		}
+		if len(cs) > 0 && len(others) >= 3 {
+			c := cs[r.Intn(len(cs))]
+			var ab []int
+			for _, k := range others {
+				if k != c && pos[ls[k].ID] < pos[ls[c].ID] {
+					ab = append(ab, k)
+				}
+			}
+			if len(ab) >= 2 {
+				r.Shuffle(len(ab), func(i, j int) { ab[i], ab[j] = ab[j], ab[i] })
+				a, b := ab[0], ab[1]
+				if pos[ls[a].ID] > pos[ls[b].ID] {
+					a, b = b, a
+				}
+				ls[b].Deps = []int{ls[a].ID}
+				ls[c].Deps = []int{ls[b].ID, ls[a].ID}
+			}
 		}
 	}
 	for k := range ls {
@@ -776,6 +814,7 @@ func genEnv(r *rand.Rand, p profile, op *Opts, cur Cluster, probe RunResult, loc
 			env.Waits[k] = WSched{Deliv: ds, End: WTimeout}
 		}
 	}
+	foreignDeliveries(r, probe, local, &env, cur.NextUID)
 	if chance(r, p.pCancel) {
 		var targets, dels []int
 		for _, a := range probe.Addrs {
@@ -850,6 +889,93 @@ func genEnv(r *rand.Rand, p profile, op *Opts, cur Cluster, probe RunResult, loc
 		env.Faults = []FAddr{withErrKind(r, cand[r.Intn(len(cand))])}
 	}
 	return env
+}
+
+// applyLayerOf maps every object of an apply group to the index of the wait group that follows its apply
+// group (-1 entries: none, dry-run).
+func applyWaitOf(plan []planGroup) map[int]int {
+	m := map[int]int{}
+	for i, g := range plan {
+		if g.Kind == "GApply" && i+1 < len(plan) && plan[i+1].Kind == "GWait" {
+			for _, id := range g.IDs {
+				m[id] = plan[i+1].N
+			}
+		}
+	}
+	return m
+}
+
+// nextGet: the address of the next GET of object i after those the probe saw.
+func nextGet(probe RunResult, i int) FAddr {
+	n := 0
+	for _, a := range probe.Addrs {
+		if a.Kind == "FGet" && a.I == i {
+			n++
+		}
+	}
+	return FAddr{Kind: "FGet", I: i, N: n}
+}
+
+// foreignDeliveries: while a LATER apply group is being waited for, the watcher reports the source j of an
+// apply-time mutation once more (j was reconciled by its own, earlier wait; the dependency filter reads the
+// actuation table, which no longer follows j — only the resource cache does). When the entry stops being
+// "Current with a body" the mutator of a dependent in a still later group reads j from the cluster: the one
+// way to a source GET outside dry-run. Half of the time that GET is rejected.
+func foreignDeliveries(r *rand.Rand, probe RunResult, local []LObj, env *Env, nextUID uint64) {
+	wOf := applyWaitOf(probe.Plan)
+	univ := probe.Univ
+	for _, l := range local {
+		if l.ID >= len(univ) || !univ[l.ID].Mut {
+			continue
+		}
+		wl, ok := wOf[l.ID]
+		if !ok {
+			continue
+		}
+		for _, j := range l.Deps {
+			wj, ok := wOf[j]
+			if !ok || wj+1 >= wl || wl > len(env.Waits) || !chance(r, 0.6) {
+				continue
+			}
+			k := wj + 1 + r.Intn(wl-wj-1) // a wait strictly between j's own wait and the apply group of l
+			if k >= len(env.Waits) {
+				continue
+			}
+			var uid uint64
+			for _, d := range probe.Waits[wj].Deliv {
+				if d.ID == j {
+					uid = d.UID
+				}
+			}
+			body := func(st Kst) SObs { return SObs{ID: j, St: st, Body: true, UID: uid, Gen: objGen} }
+			var seq []SObs
+			switch v := r.Intn(7); {
+			case v == 0:
+				seq = []SObs{body(SInProgress)}
+			case v == 1:
+				seq = []SObs{{ID: j, St: SUnknown}}
+			case v == 2 && !univ[j].Fin:
+				seq = []SObs{{ID: j, St: SNotFound}} // the watcher lost sight of it; the object is there
+			case v == 3:
+				seq = []SObs{{ID: j, St: SCurrent}} // Current, but no body
+			case v == 4:
+				seq = []SObs{body(SFailed)}
+			case v == 5:
+				seq = []SObs{body(SInProgress), body(SCurrent)} // back to Current: the cache serves the source again
+			default:
+				seq = []SObs{body(STerminating)}
+			}
+			w := &env.Waits[k]
+			at := 0
+			if len(w.Deliv) > 0 && chance(r, 0.3) {
+				at = r.Intn(len(w.Deliv))
+			}
+			w.Deliv = append(append(append([]SObs(nil), w.Deliv[:at]...), seq...), w.Deliv[at:]...)
+			if chance(r, 0.5) {
+				env.Faults = append(env.Faults, withErrKind(r, nextGet(probe, j)))
+			}
+		}
+	}
 }
 
 // ssaMode: kubectl takes its server-side branch (server dry-run, or the option without client dry-run).
@@ -1044,8 +1170,6 @@ type collector struct {
 	prop      string
 	sum       *emit.Summary
 	hist      []History
-	histMonly []History // histories outside the model's domain: only the trace monitors are evaluated on them
-	dryMut    bool      // the history being generated spells dependencies as apply-time mutations although it has dry-runs
 	runs      int
 	flaky     []string
 	failures  []string
@@ -1148,7 +1272,50 @@ func (c *collector) count(sc Scenario, res RunResult) {
 	for _, l := range sc.Local {
 		if sc.Univ[l.ID].Mut && len(l.Deps) > 0 {
 			s.Count("mut:run-with-mutation-spelled-dependency")
+			if o.Dry != DNone {
+				s.Count("mut:dry-run-with-mutation-spelled-dependency")
+			}
 			break
+		}
+	}
+	// the source lookups of the apply-time mutator: GETs it sent (seen by the fake server), and the sources
+	// of the objects whose mutation went through that needed no GET (taken from the resource cache)
+	if !o.Destroy {
+		lookups, mutFailed := 0, 0
+		for _, l := range sc.Local {
+			if !sc.Univ[l.ID].Mut || len(l.Deps) == 0 {
+				continue
+			}
+			for _, it := range res.Out.Trace {
+				if strings.HasPrefix(it.Text, "EV apply ") {
+					f := strings.Fields(it.Text)
+					if f[3] == fmt.Sprint(l.ID) {
+						if strings.HasPrefix(f[4], "AFail(failed to mutate") {
+							mutFailed++
+						} else if !strings.HasPrefix(f[4], "ASkip") && !strings.Contains(it.Text, "AFail(unknown") && !strings.Contains(it.Text, "filter") {
+							// the filters passed and every source was found
+							if strings.HasPrefix(f[4], "AOk") || strings.HasPrefix(f[4], "AFail(failed to apply") {
+								lookups += len(l.Deps)
+							}
+						}
+					}
+				}
+			}
+		}
+		addN(s, "mut:source-get", res.MutGets["ok"])
+		addN(s, "mut:source-missing", res.MutGets["missing"])
+		addN(s, "mut:source-get-rejected", res.MutGets["rejected"])
+		if n := lookups - res.MutGets["ok"]; n > 0 {
+			addN(s, "mut:source-from-cache", n)
+		}
+		addN(s, "mut:apply-failed-by-mutation", mutFailed)
+		if res.MutGets["ok"] > 0 && o.Dry == DNone {
+			s.Count("mut:run-with-source-get-outside-dry-run")
+		}
+	}
+	for k, w := range sc.Env.Waits {
+		if f := foreignIn(res.Plan, k, w); f > 0 {
+			s.Count("mut:wait-with-delivery-about-an-earlier-group")
 		}
 	}
 	s.Count(fmt.Sprintf("faults:%d", len(sc.Env.Faults)))
@@ -1241,11 +1408,28 @@ func (c *collector) count(sc Scenario, res RunResult) {
 	}
 }
 
-func (c *collector) add(h History) {
-	if c.dryMut {
-		c.histMonly = append(c.histMonly, h)
-		return
+func addN(s *emit.Summary, key string, n int) {
+	if n > 0 {
+		s.Distribution[key] += n
 	}
+}
+
+// foreignIn counts the deliveries of wait k that are about objects outside its group.
+func foreignIn(plan []planGroup, k int, w WSched) int {
+	n := 0
+	for _, g := range plan {
+		if g.Kind == "GWait" && g.N == k {
+			for _, d := range w.Deliv {
+				if !containsInt(g.IDs, d.ID) {
+					n++
+				}
+			}
+		}
+	}
+	return n
+}
+
+func (c *collector) add(h History) {
 	c.hist = append(c.hist, h)
 }
 
@@ -1281,6 +1465,10 @@ type fixedRun struct {
 	late     []LateSpec
 	stall    []int          // ids that get no deliveries; their wait ends by its timeout
 	replace  map[int][]SObs // ids whose deliveries are replaced by the given ones
+	foreign  map[int][]SObs // wait index -> deliveries (about objects of other groups) put in front of its script
+	lastGet  []int          // reject the last GET of these objects that the probe saw
+	nextGet  []int          // reject the GET of these objects that follows those the probe saw
+	getErr   int            // error kind of the rejections asked for by lastGet / nextGet
 }
 
 // dropStalled removes the deliveries of the stalled ids; their wait then ends by its timeout.
@@ -1347,8 +1535,26 @@ func (c *collector) fixedHistoryR(u Universe, init Cluster, runs []fixedRun, reu
 				}
 			}
 		}
+		for k, ds := range fr.foreign {
+			if k < len(sc.Env.Waits) {
+				sc.Env.Waits[k].Deliv = append(append([]SObs(nil), ds...), sc.Env.Waits[k].Deliv...)
+			}
+		}
+		for _, i := range fr.lastGet {
+			if a := nextGet(probe, i); a.N > 0 {
+				a.N--
+				a.Err = fr.getErr
+				sc.Env.Faults = append(append([]FAddr(nil), sc.Env.Faults...), a)
+			}
+		}
+		for _, i := range fr.nextGet {
+			a := nextGet(probe, i)
+			a.Err = fr.getErr
+			sc.Env.Faults = append(append([]FAddr(nil), sc.Env.Faults...), a)
+		}
 		sc.Late = fr.late
 		res := c.run(st, sc)
+		sc.Univ = res.Univ
 		c.count(sc, res)
 		h.Runs, h.Outs = append(h.Runs, sc), append(h.Outs, res.Out)
 	}
@@ -1375,6 +1581,7 @@ func (c *collector) stalledHistory(u Universe, init Cluster, fr fixedRun) {
 		sc.Env.Waits = append(sc.Env.Waits, ws)
 	}
 	res := c.run(st, sc)
+	sc.Univ = res.Univ
 	c.count(sc, res)
 	c.sum.Count("corpus")
 	c.add(History{Univ: u, Initial: init, Runs: []Scenario{sc}, Outs: []Outcome{res.Out}})
@@ -1766,6 +1973,99 @@ func (c *collector) corpus() {
 		c.fixedHistory(uf2, empty, []fixedRun{{local: both, opts: mm, faults: []FAddr{stream}},
 			{opts: Opts{Destroy: true, Prune: true, Policy: PMustMatch, PruneTimeout: true}}, {opts: Opts{Destroy: true, Prune: true, Policy: PMustMatch, PruneTimeout: true}}})
 	}
+	// 22. the source lookup of the apply-time mutator (seed C10f): resource cache when the entry is Current with a
+	// body, otherwise a GET; a missing source or a rejected GET fails the apply of the target without any request
+	{
+		dryC := Opts{Prune: true, Policy: PMustMatch, Dry: DClient}
+		dryS := Opts{Prune: true, Policy: PMustMatch, Dry: DServer}
+		dryCS := Opts{Prune: true, Policy: PMustMatch, Dry: DClient, SSA: true}
+		real := Opts{Prune: true, Policy: PMustMatch, RecTimeout: true}
+		des := Opts{Destroy: true, Prune: true, Policy: PMustMatch, PruneTimeout: true}
+		empty := Cluster{NextUID: 100}
+		ek := 0 // error kind of the next rejected read
+		rej := func(fr fixedRun) fixedRun {
+			fr.getErr = ek % len(faultErrs)
+			ek++
+			return fr
+		}
+		for _, d := range []Opts{dryC, dryS, dryCS} {
+			// first dry-run: source and target both new: the source is missing, the target fails, nothing is sent
+			c.fixedHistory(um, empty, []fixedRun{{local: mutSet, opts: d}, {local: mutSet, opts: real}})
+			// dry-run after a real run: the source is read from the cluster, the dry-run apply goes through
+			c.fixedHistory(um, empty, []fixedRun{{local: mutSet, opts: real}, {local: mutSet, opts: d}, {local: []LObj{{ID: 1, Ver: 2}, {ID: 2, Ver: 2, Deps: []int{1}}}, opts: d}})
+			// ... and that read is rejected
+			c.fixedHistory(um, empty, []fixedRun{{local: mutSet, opts: real}, rej(fixedRun{local: mutSet, opts: d, lastGet: []int{1}})})
+			// the source was deleted between the runs (destroy), the target too: missing again
+			c.fixedHistory(um, empty, []fixedRun{{local: mutSet, opts: real}, {opts: des}, {local: mutSet, opts: d}})
+			// adopt-all: no policy read before the mutator's GET
+			c.fixedHistory(um, empty, []fixedRun{{local: mutSet, opts: real}, rej(fixedRun{local: mutSet, opts: Opts{Prune: true, Policy: PAdoptAll, Dry: d.Dry}, lastGet: []int{1}})})
+		}
+		c.fixedHistoryR(um, empty, []fixedRun{{local: mutSet, opts: real}, {local: mutSet, opts: dryC}, {local: mutSet, opts: real}, {opts: des}, {local: mutSet, opts: dryS}}, true)
+		// two targets of one source, and a source whose bare object is not Current for kstatus (Deployment):
+		// a ConfigMap source is Put into the cache by the first lookup and serves the second; a Deployment source
+		// (and a terminating one) is read again
+		sa, sd, t1, t2 := Entry("ConfigMap", invNS, "cm-a"), Entry("Deployment", invNS, "dep-a"), Entry("ConfigMap", invNS, "cm-b"), Entry("Secret", invNS, "sec-a")
+		t1.Mut, t2.Mut = true, true
+		for _, fin := range []bool{false, true} {
+			sa.Fin = fin
+			u2 := NewUniverse([]UEntry{sa, sd, t1, t2})
+			a, dd, x, y := u2.Index(sa.Meta), u2.Index(sd.Meta), u2.Index(t1.Meta), u2.Index(t2.Meta)
+			for _, src := range []int{a, dd} {
+				set := []LObj{{ID: a, Ver: 1}, {ID: dd, Ver: 1}, {ID: x, Ver: 1, Deps: []int{src}}, {ID: y, Ver: 1, Deps: []int{src}}}
+				d := dryC
+				if (src == dd) != fin {
+					d = dryS
+				}
+				c.fixedHistory(u2, empty, []fixedRun{{local: set, opts: real}, {local: set, opts: d}})
+				c.fixedHistory(u2, empty, []fixedRun{{local: set, opts: real}, rej(fixedRun{local: set, opts: d, lastGet: []int{src}})})
+				c.fixedHistory(u2, empty, []fixedRun{{local: set, opts: real}, rej(fixedRun{local: set, opts: d, nextGet: []int{src}})})
+				c.fixedHistory(u2, empty, []fixedRun{{local: set, opts: d}})
+				if fin && src == a {
+					// the source lingers after a destroy (terminating): found, but never Current
+					c.fixedHistory(u2, empty, []fixedRun{{local: set, opts: real}, {opts: des}, {local: set, opts: dryC}})
+					c.fixedHistory(u2, empty, []fixedRun{{local: set, opts: real}, {opts: des}, rej(fixedRun{local: set, opts: dryS, lastGet: []int{src}})})
+				}
+			}
+			// both sources, in both orders: the second source is not read when the first one fails
+			set2 := []LObj{{ID: a, Ver: 1}, {ID: dd, Ver: 1}, {ID: x, Ver: 1, Deps: []int{a, dd}}, {ID: y, Ver: 1, Deps: []int{dd, a}}}
+			c.fixedHistory(u2, empty, []fixedRun{{local: set2[:1], opts: real}, {local: set2, opts: dryC}, {local: set2, opts: dryS}})
+			c.fixedHistory(u2, empty, []fixedRun{{local: set2, opts: real}, rej(fixedRun{local: set2, opts: dryC, lastGet: []int{a}}), rej(fixedRun{local: set2, opts: dryS, lastGet: []int{dd}})})
+		}
+		// a real run in which the cache entry of the source stops being "Current with a body" after the source was
+		// reconciled: three layers (s; m depends on s; t, mutation-spelled, on m and s); while m is waited for the
+		// watcher reports s again. The dependency filter still passes (the table is not touched), the mutator reads
+		// s from the cluster; that read is rejected; the watcher returns to Current; s was never lost
+		s3, m3, t3 := Entry("ConfigMap", invNS, "cm-a"), Entry("ConfigMap", invNS, "cm-b"), Entry("Secret", invNS, "sec-a")
+		t3.Mut = true
+		for _, fin := range []bool{false, true} {
+			s3.Fin = fin
+			u3 := NewUniverse([]UEntry{s3, m3, t3})
+			si, mi, ti := u3.Index(s3.Meta), u3.Index(m3.Meta), u3.Index(t3.Meta)
+			set := []LObj{{ID: si, Ver: 1}, {ID: mi, Ver: 1, Deps: []int{si}}, {ID: ti, Ver: 1, Deps: []int{mi, si}}}
+			obs := [][]SObs{
+				{{ID: si, St: SInProgress, Body: true, UID: 100, Gen: objGen}},
+				{{ID: si, St: SUnknown}},
+				{{ID: si, St: SCurrent}},
+				{{ID: si, St: SFailed, Body: true, UID: 100, Gen: objGen}},
+				{{ID: si, St: SInProgress, Body: true, UID: 100, Gen: objGen}, {ID: si, St: SCurrent, Body: true, UID: 100, Gen: objGen}},
+				{{ID: si, St: SCurrent, Body: true, UID: 100, Gen: objGen - 1}},
+				{{ID: si, St: SNotFound}},
+			}
+			if fin {
+				obs = obs[:3] // (never NotFound about an object held by a finalizer)
+			}
+			for n, ob := range obs {
+				if !fin {
+					c.fixedHistory(u3, empty, []fixedRun{{local: set, opts: real, foreign: map[int][]SObs{1: ob}}, {local: set, opts: real}})
+				}
+				o := real
+				if n%2 == 1 {
+					o = Opts{Prune: true, Policy: PAdoptAll, SSA: true, StatusEvents: true}
+				}
+				c.fixedHistory(u3, empty, []fixedRun{rej(fixedRun{local: set, opts: o, foreign: map[int][]SObs{1: ob}, nextGet: []int{si}}), {local: set, opts: real}})
+			}
+		}
+	}
 	// a plain round trip: apply two, apply one (prune), destroy
 	c.fixedHistory(u, Cluster{NextUID: 100}, []fixedRun{
 		{local: []LObj{{ID: 0, Ver: 1}, {ID: 1, Ver: 1, Deps: []int{0}}}, opts: Opts{Prune: true, Policy: PMustMatch}},
@@ -1783,7 +2083,7 @@ func b2i(b bool) int {
 }
 
 func (c *collector) base(r *rand.Rand, p profile, budget *int) {
-	// dry-run is decided per history: only histories without any dry-run use the mutation spelling
+	// dry-run is decided per history
 	nDry := 0
 	for _, d := range p.dry {
 		if d != DNone {
@@ -1791,10 +2091,7 @@ func (c *collector) base(r *rand.Rand, p profile, budget *int) {
 		}
 	}
 	allowDry := nDry > 0 && chance(r, []float64{0.5, 0.85}[b2i(2*nDry >= len(p.dry))])
-	if c.dryMut {
-		allowDry = true
-	}
-	u := genUniverse(r, p, !allowDry || c.dryMut)
+	u := genUniverse(r, p)
 	init := genCluster(r, p, u)
 	st := NewStore(u, init)
 	h := History{Univ: u, Initial: init, Reuse: chance(r, 0.5)}
@@ -1849,6 +2146,7 @@ func (c *collector) base(r *rand.Rand, p profile, budget *int) {
 			c.variants(r, p, st, h, sc, probe, budget)
 		}
 		res := c.run(st, sc)
+		sc.Univ = res.Univ
 		*budget--
 		c.count(sc, res)
 		h.Runs, h.Outs = append(h.Runs, sc), append(h.Outs, res.Out)
@@ -1931,6 +2229,7 @@ func (c *collector) variants(r *rand.Rand, p profile, st *Store, h History, sc S
 		v.Env.Faults = fs
 		cs := st.Clone()
 		res := c.run(cs, v)
+		v.Univ = res.Univ
 		*budget--
 		c.count(v, res)
 		c.sum.Count("variant")
@@ -1948,6 +2247,7 @@ func (c *collector) variants(r *rand.Rand, p profile, st *Store, h History, sc S
 			c.probes++
 			f.Env = Env{WatchErrAt: -1, Waits: endsFor(pr, f.Opts)}
 			res2 := c.run(cs, f)
+			f.Univ = res2.Univ
 			*budget--
 			c.count(f, res2)
 			hv.Runs, hv.Outs = append(hv.Runs, f), append(hv.Outs, res2.Out)
@@ -2022,22 +2322,6 @@ func runProfile(p profile, seed int64, tier, outDir string) (*emit.Summary, erro
 	for budget > 0 {
 		c.base(r, p, &budget)
 	}
-	if p.name == "C10" {
-		// monitor-only stream (seed C10f): dry-run histories whose dependencies are spelled as apply-time
-		// mutations. The source of a substitution does not exist in a first dry-run, the mutator fails and
-		// the object is reported failed — a path outside the model; mon_C10 reads the trace only.
-		c.dryMut = true
-		mutChance = 0.75
-		defer func() { mutChance = 0.3 }()
-		extra := 110
-		if tier == "thorough" {
-			extra = 900
-		}
-		for extra > 0 {
-			c.base(r, p, &extra)
-		}
-		c.dryMut = false
-	}
 	elapsed := time.Since(t0)
 	// requests arriving long after a run ended would show up as goroutines
 	time.Sleep(100 * time.Millisecond)
@@ -2074,25 +2358,6 @@ func runProfile(p profile, seed int64, tier, outDir string) (*emit.Summary, erro
 			return nil, err
 		}
 	}
-	for i := 0; i < len(c.histMonly); i += perFile {
-		cf := &emit.CaseFile{Name: fmt.Sprintf("Cases_%s_monly_%d", p.name, i/perFile),
-			Imports: "From CliUtils Require Import Model.PipelineTypes Corr.CorrPipeline.",
-			Check:   "check_" + p.name + "_monly"}
-		for _, h := range c.histMonly[i:min(i+perFile, len(c.histMonly))] {
-			t := h.Coq()
-			cf.Add(t, "[monitor-only] "+h.Text())
-			terms = append(terms, t)
-			nt := false
-			for _, o := range h.Outs {
-				nt = nt || o.Nontrivial()
-			}
-			nontr = append(nontr, nt)
-		}
-		if err := cf.Write(outDir, sum); err != nil {
-			return nil, err
-		}
-	}
-	sum.Extra["monitor_only_histories"] = len(c.histMonly)
 	sum.Evaluations = c.runs
 	sum.DistinctNontrivial = emit.Distinct(terms, nontr)
 	sum.Rule = "one case = one history (initial cluster + 1..4 runs of the real Applier/Destroyer over the fake API server and the scripted watcher); " +
